@@ -22,6 +22,10 @@ KwRec(k) == CASE k = "k"   -> [form |-> "str", v |-> "k"]
               [] k = "nil" -> [form |-> "nil", v |-> ""]
               [] OTHER     -> [form |-> "int", v |-> ""]
 
+CLvArg(bits, form) == [bits |-> bits, none |-> FALSE, all |-> FALSE, form |-> form]
+CLvArgs == {CLvArg(<<2>>, "name"), CLvArg(<<5>>, "const"), CLvArg(<<2, 7>>, "int"),
+            [bits |-> <<>>, none |-> TRUE, all |-> FALSE, form |-> "name"], [bits |-> <<>>, none |-> FALSE, all |-> TRUE, form |-> "int"]}
+
 CCalls(s) ==
        (IF "set" \in CFams THEN
             {[op |-> "SetKeyword", k |-> KwRec(k)] : k \in KwArgs}
@@ -35,6 +39,9 @@ CCalls(s) ==
   \cup (IF "settings" \in CFams THEN
             {[op |-> "SetID", v |-> v] : v \in {"", "x"}} \cup {[op |-> "SetCategory", v |-> v] : v \in {"", "c"}}
        \cup {[op |-> "SetEncap", pairs |-> p] : p \in {<<>>, <<<<"\"">>>>, <<<<"<", ">">>>>, <<<<"<", ">">>, <<"\"">>>>, <<<<"\"", ">">>>>}} ELSE {})
+  \cup (IF "loglevel" \in CFams THEN
+            {[op |-> "SetLogLevel", args |-> a] : a \in [1..1 -> CLvArgs] \cup {<<CLvArg(<<2>>, "name"), x>> : x \in CLvArgs}}
+       \cup {[op |-> "UnsetLogLevel", args |-> <<x>>] : x \in {y \in CLvArgs : ~y.all}} ELSE {})
   \cup (IF "closures" \in CFams THEN
             {[op |-> "SetValidityPolicy", mode |-> m] : m \in {"none", "ok", "bad"}}
        \cup {[op |-> "SetPresentationPolicy", on |-> b] : b \in BOOLEAN} ELSE {})
@@ -88,7 +95,7 @@ CStepProps ==
 CTypeOK == st.live \in BOOLEAN /\ st.opts \subseteq CFlags /\ st.err \in {"none", "set"}
 
 -----------------------------------------------------------------------------
-CJState(s) == [s EXCEPT !.opts = CSetToSeq(s.opts)]
+CJState(s) == [s EXCEPT !.opts = CSetToSeq(s.opts), !.lvl = CSetToSeq(s.lvl)]
 CDelta(a, b) == LET J == CJState(b) IN [f \in {f \in DOMAIN a : a[f] # b[f]} |-> J[f]]
 
 CEmit == OUT = "" \/
